@@ -68,6 +68,9 @@ public:
   virtual void flush() {
     if (last_xact)
       out << "))\n";
+    // flush() is also called between the groups of --group-by: the list is
+    // closed, so the next posting must open a new one
+    last_xact = NULL;
     out.flush();
   }
   virtual void operator()(post_t& post);
